@@ -446,3 +446,39 @@ package go9p
 //@     invariant others_unchanged(fc.Wqid)
 //@     invariant mem_unchanged_except(fc.Buf, 0, 9+13*i)
 //@     invariant fresh(fc.Wqid) && len(fc.Wqid) == nwqid && obj(fc.Wqid) != obj(wqids)
+
+// ---------------------------------------------------------------------------
+// Decoding (C02: total on arbitrary bytes; C01: inverse of the constructors)
+
+//@ func gstat(buf, d, dotu) (r, err)
+//@   property C01 C02 C06
+//@   requires d != nil
+//@   ensures  err != nil ==> r == nil
+//@   ensures  err == nil ==> len(r) <= len(buf) && r == buf[len(buf)-len(r):]
+//@   ensures  err == nil ==> len(d.Name) <= 65535 && len(d.Uid) <= 65535 && len(d.Gid) <= 65535 && len(d.Muid) <= 65535 && (dotu ==> len(d.Ext) <= 65535)
+//@   ensures  !dotu ==> d.Ext == old(d.Ext)
+//@   assigns  all(d)
+
+//@ func UnpackDir(buf, dotu) (d, b, amt, err)
+//@   property C01 C02 C15
+//@   ensures  err != nil ==> d == nil && b == nil && amt == 0
+//@   ensures  err == nil ==> d != nil && fresh(d) && 0 <= amt && amt <= len(buf) && b == buf[amt:] && strsok(d)
+//@   assigns  fresh
+
+//@ pure within(p, buf, n) = obj(p) == obj(buf) && off(buf) <= off(p) && off(p) + len(p) <= off(buf) + n
+
+//@ func Unpack(buf, dotu) (fc, fcsz, err)
+//@   property C02 C06 C01
+//@   ensures  err != nil ==> fc == nil && fcsz == 0
+//@   ensures  err == nil ==> fc != nil && fresh(fc) && fcsz == u32le(buf, 0) && 7 <= fcsz && fcsz <= len(buf)
+//@   ensures  err == nil ==> fc.Size == fcsz && fc.Type == u8(buf, 4) && fc.Tag == u16le(buf, 5) && fc.Pkt == buf[0:fcsz]
+//@   ensures  err == nil ==> 100 <= fc.Type && fc.Type <= 127 && fc.Type != 106
+//@   assigns  fresh
+//@   loop 1
+//@     invariant fc != nil && 0 <= i && i <= m && len(fc.Wname) == m && fresh(fc.Wname) && fc.Type == 110
+//@     invariant len(buf) >= 7 && 7 <= fc.Size && fc.Size <= len(buf) && fc.Size == u32le(buf, 0) && fcsz == fc.Size && fc.Pkt == buf[0:fc.Size]
+//@     invariant p != nil && within(p, buf, fc.Size) && others_unchanged(fc.Wname)
+//@   loop 2
+//@     invariant fc != nil && 0 <= i && i <= m && len(fc.Wqid) == m && fresh(fc.Wqid) && fc.Type == 111
+//@     invariant len(buf) >= 7 && 7 <= fc.Size && fc.Size <= len(buf) && fc.Size == u32le(buf, 0) && fcsz == fc.Size && fc.Pkt == buf[0:fc.Size]
+//@     invariant p != nil && within(p, buf, fc.Size) && others_unchanged(fc.Wqid) && len(p) >= 13 * (m - i)
